@@ -742,8 +742,6 @@ package adt
 //@   pure
 //@ func (*Vertex).Elems
 //@   assumed A-int: iterator over the list elements
-//@ func slices.Collect
-//@   assumed A-ext slices.Collect
 // (P) C01: the same join when the other operand is an evaluated list vertex
 //@ func processListVertex
 //@   may_panic
